@@ -181,10 +181,17 @@ def main():
         for (n, verdict) in r["oracle_fails"]:
             # oracle verdicts are tagged with the property whose statement they test ("FAIL C02 …"); a failure of
             # another property's statement is not a violation of this one (it is reported by that property's check)
-            mtag = re.match(r"FAIL (C\d\d)\b", verdict)
-            if mtag and mtag.group(1) != pid and mtag.group(1) not in P.get("also_tags", []):
-                other_tags[mtag.group(1)] = other_tags.get(mtag.group(1), 0) + 1
+            segs = [sg.strip() for sg in verdict.split(" ;; ")]
+            mine = []
+            for sg in segs:
+                mtag = re.match(r"FAIL (C\d\d)\b", sg)
+                if mtag and mtag.group(1) != pid and mtag.group(1) not in P.get("also_tags", []):
+                    other_tags[mtag.group(1)] = other_tags.get(mtag.group(1), 0) + 1
+                else:
+                    mine.append(sg)
+            if not mine:
                 continue
+            verdict = " ;; ".join(mine)
             op = vlib.get_line(pre + ".ops", n)
             k = known_match(known, pid, stream, op or "", verdict)
             if k:
@@ -231,7 +238,8 @@ def main():
                     violations.insert(0, dict(kind="impl-fault", stream=stream, variant=variant, seed=s2, tier="thorough",
                                               detail=f"harness exit {r['harness_rc']}: " + r["harness_err"][-1500:], found_input=True))
                     break
-                fails2 = [(n, v) for (n, v) in r["oracle_fails"] if not (re.match(r"FAIL (C\d\d)\b", v) and re.match(r"FAIL (C\d\d)\b", v).group(1) != pid)]
+                fails2 = [(n, v) for (n, v) in r["oracle_fails"]
+                          if any((not re.match(r"FAIL (C\d\d)\b", sg.strip())) or re.match(r"FAIL (C\d\d)\b", sg.strip()).group(1) == pid for sg in v.split(" ;; "))]
                 if fails2:
                     n, verdict = fails2[0]
                     op = vlib.get_line(r["prefix"] + ".ops", n)
